@@ -347,8 +347,18 @@ def run(chk):
         if inr:
             sz = gm["grain sizes"][0]
             sz = 0.5 if sz < 0 else sz
-            mat = [float(x) for row in gm["rotation matrices"][0] for x in row]
-            if v[8:10] != [sz, sz] or v[10:19] != mat or v[19:28] != mat:
+            if "rotation matrices" in gm:
+                mat = [float(x) for row in gm["rotation matrices"][0] for x in row]
+                okm = v[10:19] == mat and v[19:28] == mat
+            else:
+                # z-x-z Euler angles (degrees): the documented rotation matrix, to 1e-12
+                p1, th, p2 = [math.radians(a_) for a_ in gm["Euler angles z-x-z"][0]]
+                c1, s1, ct, st, c2, s2 = math.cos(p1), math.sin(p1), math.cos(th), math.sin(th), math.cos(p2), math.sin(p2)
+                mat = [c2 * c1 - ct * s1 * s2, -c2 * s1 - ct * c1 * s2, -s2 * st,
+                       s2 * c1 + ct * s1 * c2, -s2 * s1 + ct * c1 * c2, c2 * st,
+                       -st * s1, -st * c1, ct]
+                okm = all(abs(x - y) <= 1e-12 for x, y in zip(v[10:19], mat)) and v[19:28] == v[10:19]
+            if v[8:10] != [sz, sz] or not okm:
                 viol.append(("uniform grains are not returned as configured", cs.describe(i)))
     chk.counters["queries per temperature model"] = per_model
     for pl in plan[:3]:
